@@ -271,7 +271,7 @@ def extras(ctx):
     X = P("X")
     cols = atom(("getattr", X, "columns"))
     for attr, op, what in (("reference_batch_features", "!=", "every column but the target"), ("reference_batch_target", "==", "the target column")):
-        st = [e for e in ts.stores(attr) if e.func.name == "set_reference"]
+        st = [e for e in ts.stores(attr) if q.within(e, "MD3.set_reference", ("reset", "calculate_distribution_statistics"))]
         want = atom(("call", "copy.deepcopy", (q.sub(atom(("getattr", X, "loc")), atom(("tuple", (atom(("slice", T.NONE, T.NONE, T.NONE)), T.mk_cmp(op, cols, P("target_name")))))),), ()))
         ctx.ob("FRM", S_, "%s is a private copy of %s" % (attr, what), len(st) == 1 and st[0].value == want, q.short(st[0].value, 120) if st else "no store", st[0] if st else None)
     # k-fold statistics: a fresh clone is fitted on the training part of every fold, and judged on the held-out part
